@@ -499,6 +499,29 @@ func genC02(c *Ctx) {
 			}
 		}
 	}
+	// the same id on both sides, '+' on neither / either / both, exceptions none / equal / different: ids outside every
+	// range too (the same id matches itself whatever the '+'; the exception must be identical)
+	var sameIDs []string
+	sameIDs = append(sameIDs, "MIT", "ISC", "Zlib", "0BSD", "BSD-3-Clause", "curl", "X11", "GFDL-1.1-invariants-only", "GFDL-1.3-no-invariants-only", "Apache-2.0", "GPL-2.0-only", "MPL-2.0", "OLDAP-2.8")
+	for _, x := range tDeprec {
+		if plainID(x) {
+			sameIDs = append(sameIDs, x)
+		}
+	}
+	for k := 0; k < 25; k++ {
+		if x := tActive[c.rng.Intn(len(tActive))]; plainID(x) {
+			sameIDs = append(sameIDs, x)
+		}
+	}
+	for _, x := range uniq(sameIDs) {
+		for _, ex := range excs {
+			for _, ey := range excs {
+				for m := 0; m < 4; m++ {
+					check(x, m&1 == 1, ex, x, m&2 == 2, ey)
+				}
+			}
+		}
+	}
 	// the exception is compared like the id: in any letter case (list casing on one side, re-cased on the other)
 	for _, e := range tExcs {
 		for _, rc := range []string{strings.ToLower(e), strings.ToUpper(e), caseMix(c.rng, e)} {
@@ -652,6 +675,23 @@ func malformed(c *Ctx) []string {
 			}
 		}
 	}
+	// fragments: every prefix and suffix of ids, suffix keywords and compound terms, alone and in frames (a lookup of
+	// what is left after stripping "-only" / "-or-later" / a prefix may be handed an empty or one-byte string)
+	for _, w := range []string{"GPL-2.0-only", "Apache-2.0-or-later", "LicenseRef-a", "DocumentRef-d:LicenseRef-a", "MIT WITH Bison-exception-2.2", "GPL-2.0+", "-only", "-or-later", "-ONLY", "--only", "-only-or-later"} {
+		var frs []string
+		for i := 0; i <= len(w); i++ {
+			frs = append(frs, w[:i], w[i:])
+		}
+		for _, f := range uniq(frs) {
+			for _, fr := range []string{"%s", "(%s)", "MIT AND %s", "%s AND MIT", "MIT WITH %s", "DocumentRef-a:%s", "%s+", "MIT OR (%s", "%s-only", "%s-or-later", "LicenseRef-%s", "%s WITH Bison-exception-2.2", "%s %s"} {
+				if strings.Count(fr, "%s") == 2 {
+					add(fmt.Sprintf(fr, f, f))
+				} else {
+					add(fmt.Sprintf(fr, f))
+				}
+			}
+		}
+	}
 	// byte soup
 	alpha := []string{" ", "\t", "(", ")", "+", ":", "\xc3\xa9", "\xff", "A", "-", ".", "\x00", "W", "I", "T", "H"}
 	L := 3
@@ -745,6 +785,25 @@ func genC03(c *Ctx) {
 	bad("Satisfies", map[string]interface{}{"expression": "", "allowed": nil}, c.S("", nil))
 	bad("ValidateLicenses", []string{}, c.L(nil))
 	bad("ValidateLicenses", []string{""}, c.L([]string{""}))
+	// lists of every length (chunked or parallel validation, fixed worker counts)
+	maxN := 300
+	if c.thorough() {
+		maxN = 1100
+	}
+	for n := 0; n <= maxN; n++ {
+		l := make([]string, n)
+		for i := range l {
+			l[i] = []string{"MIT", "FOO", "Apache-2.0", "(", "ISC"}[(i*7+n)%5]
+		}
+		bad("ValidateLicenses", fmt.Sprintf("list of %d entries", n), c.L(l))
+		if n%5 == 0 && n > 0 {
+			v := make([]string, n)
+			for i := range v {
+				v[i] = []string{"MIT", "ISC", "Zlib"}[i%3]
+			}
+			bad("Satisfies", fmt.Sprintf("allowed list of %d entries", n), c.S("MIT AND Zlib", v))
+		}
+	}
 	// expression shapes that exercised the old expansion
 	for _, w := range corpusSat {
 		bad("Satisfies", map[string]interface{}{"expression": w.t.render(0, c.rng), "allowed": w.A}, c.S(w.t.render(0, c.rng), w.A))
@@ -774,6 +833,9 @@ var c04pool = []tagged{
 	{"MIT AND FOO", 2}, {"DocumentRef-a", 2}, {"mit and isc", 2},
 	{"MIT\n", 2}, {"\tMIT", 2}, {"MIT\r\n", 2}, {"\t(MIT OR ISC)\t", 2}, {"MIT\tAND ISC", 2}, {"\n", 2}, {"MIT ", 0}, {"  (MIT)", 0},
 	{"Classpath-exception-2.0", 2}, {"389-exception", 2}, {"mit", 0}, {"LicenseRef-", 2}, {"MIT OR", 2},
+	{"(MIT OR MIT)", 1}, {"MIT OR MIT", 1}, {"((MIT AND MIT))", 1}, {"mit AND MIT", 1}, {"MIT;", 2}, {"MIT,ISC", 2}, {"NONE", 2}, {"NOASSERTION", 2},
+	{"MIT and ISC", 2}, {"MIT or ISC", 2}, {"MIT with Bison-exception-2.2", 2}, {"\x00MIT", 2}, {"MIT\x00", 2}, {"\u00a0MIT", 2}, {"MIT\u00a0", 2}, {"\ufeffMIT", 2},
+	{"MIT\v", 2}, {"MIT\f", 2}, {"\rMIT", 2}, {"   ", 2}, {"LicenseRef-a_b", 2}, {"AdditionRef-x", 2}, {"MIT WITH AdditionRef-x", 2},
 }
 
 func genC04(c *Ctx) {
@@ -922,6 +984,60 @@ func genC04(c *Ctx) {
 			if r := c.L(l); r != unknown && r != exp {
 				c.fail("ValidateLicenses", l, r, exp, "exactly the invalid elements, in order and with multiplicity (long list)")
 			}
+		}
+	}
+	for _, l := range [][]string{{"FOO", "MIT", "FOO"}, {"FOO", "BAR", "FOO", "MIT", "BAR", "FOO"}, {"", "", ""}, {" ", "", "  "}, {"MIT", "", "MIT", ""},
+		{"foo", "FOO", "Foo"}, {"MIT AND", "MIT", "MIT AND", "ISC", "MIT AND"}, {"(", ")", "(", ")"}} {
+		var bad []string
+		for _, x := range l {
+			if v, ok := validOf(x); ok && !v {
+				bad = append(bad, x)
+			}
+		}
+		exp := fmt.Sprintf("%d %s", map[bool]int{true: 1, false: 0}[len(bad) == 0], hxl(bad))
+		if r := c.L(l); r != unknown && r != exp {
+			c.fail("ValidateLicenses", l, r, exp, "exactly the invalid elements, in order and with multiplicity (repeated invalid strings, blanks)")
+		}
+		if r := c.S("MIT", l); r != unknown && r != "E" && len(bad) > 0 {
+			c.fail("Satisfies", map[string]interface{}{"expression": "MIT", "allowed": l}, r, "error", "an invalid allowed entry is an error")
+		}
+	}
+	// every pool string, and look-alike spellings of listed ids, as the only / first / last allowed entry and as a list element
+	look := []string{"I\u017fC", "\u017fleepycat", "Ka\u017flib", "\u212anuth-CTAN", "\u212aazlib", "M\u0130T", "mi\u0074", "\ufeffMIT", "MIT\ufeff", "\ufeff", "\ufeff\ufeffMIT", "\u2028MIT", "MIT\u2028", "\u200bMIT"}
+	for _, t := range c04pool {
+		look = append(look, t.s)
+	}
+	for _, x := range look {
+		agree(x)
+		v, ok := validOf(x)
+		if !ok {
+			continue
+		}
+		single := v
+		if v {
+			if r, xs := c.X(x); r == "ok" && len(xs) != 1 {
+				single = false
+			} else if strings.Contains(x, " AND ") || strings.Contains(x, " OR ") {
+				single = false
+			}
+		}
+		for _, A := range [][]string{{x}, {x, "MIT"}, {"MIT", x}, {"ISC", x, "MIT"}} {
+			r := c.S("MIT", A)
+			if r != unknown && (r == "T" || r == "F") != single {
+				c.fail("Satisfies", map[string]interface{}{"expression": "MIT", "allowed": A}, r, map[bool]string{true: "no error", false: "error"}[single], "error iff some allowed entry is invalid or compound, wherever it stands")
+			}
+		}
+		exp := fmt.Sprintf("%d %s", map[bool]int{true: 1, false: 0}[v], hxl(map[bool][]string{true: nil, false: {x, x}}[v]))
+		if r := c.L([]string{x, "MIT", x}); r != unknown && r != exp {
+			c.fail("ValidateLicenses", []string{x, "MIT", x}, r, exp, "exactly the invalid elements, in order and with multiplicity")
+		}
+	}
+	for _, e := range []string{"FOO", "", "MIT AND", "(", " "} {
+		if r := c.S(e, nil); r != unknown && r != "E" {
+			c.fail("Satisfies", map[string]interface{}{"expression": e, "allowed": []string{}}, r, "error (and false)", "invalid expression and empty list: an error either way")
+		}
+		if r := c.S(e, []string{"FOO"}); r != unknown && r != "E" {
+			c.fail("Satisfies", map[string]interface{}{"expression": e, "allowed": []string{"FOO"}}, r, "error (and false)", "invalid expression and invalid list")
 		}
 	}
 	// every byte value inside / next to an identifier
